@@ -371,6 +371,58 @@ def pit_case(torch, seed, style, full=False):
         # ---- float64 evaluation for the comparison with the model (value + gradient), Coq literals
         # ---- re-assigning the cost specification after the masks have moved changes nothing: same value as before
         # (= as a FRESH wrapper carrying identical mask values), dict <-> single, and all masks open == original
+        # ---- discrete_cost=True (set later on the wrapper, and given to the constructor): the cost is evaluated on the binarized
+        # masks, PITBinarizer is a straight-through estimator, so the gradient sentences hold unchanged: finite, of the sign of
+        # the element and non-zero for every trainable non keep-alive element whose increase raises the (now step-wise) metric
+        stage = 'discrete'
+        setall(vals0)
+        pd = PIT(ga.build(spec, seed=seed), input_shape=tuple(spec['input_shape']), cost=dict(specs), discrete_cost=True, **kw)
+        pdp = dict(pd.named_parameters())
+        with torch.no_grad():
+            for n, q in train:
+                if n in pdp:
+                    pdp[n].copy_(torch.tensor(vals0[n], dtype=pdp[n].dtype).reshape(pdp[n].shape))
+        p.discrete_cost = True
+        o['discrete'] = {}
+        for tagd, w in (('set-later', p), ('constructor', pd)):
+            wtrain = [(n, q) for n, q in w.named_nas_parameters() if q.requires_grad]
+            wnet = list(w.named_net_parameters())
+            for which in names:
+                stage = 'discrete:' + which
+                c = w.get_cost(which)
+                v = float(c)
+                o['discrete'].setdefault(which, {})[tagd] = v
+                if not math.isfinite(v) or v < 0:
+                    o['fails'].append(('cost-not-finite-or-negative:discrete_cost:' + which, {'how': tagd, 'value': v}))
+                    continue
+                g = torch.autograd.grad(c, [q for _, q in wtrain], allow_unused=True, retain_graph=True) if (wtrain and c.requires_grad) else [None] * len(wtrain)
+                gw = torch.autograd.grad(c, [q for _, q in wnet], allow_unused=True, retain_graph=True) if c.requires_grad else [None] * len(wnet)
+                if any(gg is not None and bool((gg != 0).any()) for gg in gw):
+                    o['fails'].append(('gradient-reaches-network-weight:discrete_cost:' + which, {'how': tagd}))
+                with torch.no_grad():
+                    for (n, q), gg in zip(wtrain, g):
+                        gl = [0.0] * q.numel() if gg is None else [float(x) for x in gg.flatten()]
+                        if not all(math.isfinite(x) for x in gl):
+                            o['fails'].append(('gradient-not-finite:discrete_cost:' + which, {'how': tagd, 'param': n}))
+                            continue
+                        for i in range(q.numel() - 1):
+                            x = float(q.view(-1)[i])
+                            if x == 0.0:
+                                continue
+                            q.view(-1)[i] = x + math.copysign(1.0, x)
+                            c2 = float(w.get_cost(which))
+                            q.view(-1)[i] = x
+                            if c2 > v and not gl[i] * math.copysign(1.0, x) > 0:
+                                o['fails'].append(('no-gradient-for-element-that-raises-cost:discrete_cost:' + which, {'how': tagd, 'param': n, 'index': i, 'x': x, 'cost': v, 'cost_raised': c2, 'grad': gl[i], 'cost_requires_grad': bool(c.requires_grad)}))
+                            if c2 < v:
+                                o['fails'].append(('raising-magnitude-lowers-cost:discrete_cost:' + which, {'how': tagd, 'param': n, 'index': i, 'x': x, 'cost': v, 'cost_raised': c2}))
+        for which, d in o['discrete'].items():
+            if len(d) == 2 and d['set-later'] != d['constructor']:
+                o['fails'].append(('discrete-cost-differs-between-constructor-and-setter:' + which, d))
+        p.discrete_cost = False
+        for which in names:
+            if float(p.get_cost(which)) != o['specs'][which]['value']:
+                o['fails'].append(('cost-changes-after-discrete_cost-round-trip:' + which, {'before': o['specs'][which]['value'], 'after': float(p.get_cost(which))}))
         stage = 'trainability'
         setall(vals0)
         for sw in rng.sample(SWITCHES, 3):
